@@ -13,6 +13,7 @@ pub mod bls12_381;
 pub mod bn254;
 pub mod hash;
 pub mod modexp;
+pub mod secp256k1;
 
 pub use blake2::blake2f;
 pub use hash::{ripemd160, sha256};
